@@ -84,8 +84,8 @@ func ToBinary(i interface{}) (interface{}, error) {
 		case reflect.Array:
 			if v.Type().Elem().Kind() == reflect.Uint8 {
 				b := make([]uint8, v.Len())
-				if n := reflect.Copy(reflect.ValueOf(b), v); n != v.Len() {
-					return nil, fmt.Errorf("%w: %#v (%T)", ErrUnableToCastToBinary, i, i)
+				for idx := range b {
+					b[idx] = uint8(v.Index(idx).Uint())
 				}
 
 				return b, nil
